@@ -61,8 +61,13 @@ def _worker(job: tuple) -> dict:
     try:
         eng = _engine()
         c = REGISTRY.contracts.get(key) or REGISTRY.lemmas.get(key)
-        obs = eng.verify(c)
-        if nshards > 1:
+        by_variant = nshards > 1 and len(c.variants) >= nshards
+        if by_variant:
+            # generation (symbolic execution) is what costs for these functions: each worker takes whole variants
+            obs = eng.verify(c, variant_filter=lambda i: i % nshards == shard)
+        else:
+            obs = eng.verify(c)
+        if nshards > 1 and not by_variant:
             # every shard regenerates all obligations (cheap) and discharges its share (expensive)
             obs = [ob for i, ob in enumerate(obs) if i % nshards == shard or ob.kind in ("cover", "unsupported")]
             if shard != 0:
@@ -216,6 +221,9 @@ def main() -> int:
             for j, r2 in zip(redo, again):
                 if not r2.get("error"):
                     results[jobs.index(j)] = r2
+    if os.environ.get("PYVC_TIMES") == "1":
+        for j, r in sorted(zip(jobs, results), key=lambda x: -x[1].get("wall", 0))[:12]:
+            sys.stderr.write(f"[time] {j[0].split(':')[-1]} shard {j[2]}/{j[3]}: {r.get('wall', 0):.1f}s\n")
     if pid == "C12":
         results.append(global_frame_rows(pid))
     errors = [r for r in results if r.get("error")]
